@@ -2,66 +2,336 @@ package schist
 
 import (
 	"fmt"
+	"math"
 	"time"
 
+	"0chain.net/chaincore/transaction"
 	"0chain.net/smartcontract/faucetsc"
+
+	"verifh/world"
 )
 
-// C17: faucet limits. Windows are identified by the StartTime the contract records in state (the contract defines
-// what a window is); the amounts are taken from balance deltas, never from the contract's own counters.
+// C17: faucet limits.
+//
+// The oracle is a reference model of the reset windows that is built only from what can be observed from outside the
+// contract: the creation date of every successful faucet transaction, the tokens that left the faucet wallet (balance
+// deltas) and the configuration (limits, reset lengths) stored in the PRE state of the transaction. Nothing the contract
+// records about its own windows (StartTime, Used of the global node and of the user nodes) is read.
+//
+//   - a client's window starts at its first successful pour; a later pour restarts it only when it arrives at least
+//     individual_reset (or global_reset) after the start of the client's current window;
+//   - the global window starts at the first successful faucet transaction (pour, refill, update-settings: each of them
+//     stores the global node) and restarts only when such a transaction arrives at least global_reset after its start;
+//   - within one window the tokens poured to the client stay within periodic_limit, the tokens poured to everybody
+//     within global_limit; a pour never exceeds the balance the faucet had before it.
+type fcWin struct {
+	set   bool
+	start int64 // seconds (txn creation date)
+	sum   uint64
+}
+
+type fcModel struct {
+	g     fcWin
+	users map[string]*fcWin
+}
+
+// fcElapsed is time.Time.Sub on whole seconds: saturating, in nanoseconds.
+func fcElapsed(now, start int64) time.Duration {
+	d := now - start
+	if d > math.MaxInt64/int64(time.Second) {
+		return time.Duration(math.MaxInt64)
+	}
+	if d < math.MinInt64/int64(time.Second) {
+		return time.Duration(math.MinInt64)
+	}
+	return time.Duration(d) * time.Second
+}
+
+func fcReqClass(req, pourAmount, maxPour uint64) string {
+	switch {
+	case req == 0:
+		return "zero"
+	case req < pourAmount:
+		return "below-default"
+	case req == pourAmount:
+		return "default"
+	case req < maxPour:
+		return "between-default-and-max"
+	case req == maxPour:
+		return "max"
+	}
+	return "above-max"
+}
+
 func monC17(h *Hist, o *TxnObs) {
-	if o.Call.Name != "faucet.pour" || o.Outcome != "success" {
+	t := o.Txn
+	if t == nil || t.TransactionType != transaction.TxnTypeSmartContract || t.ToClientID != faucetsc.ADDRESS {
+		return
+	}
+	fn := t.FunctionName
+	if fn != "pour" && fn != "refill" && fn != "update-settings" {
+		return
+	}
+	run := h.Runs["C17"]
+	if o.Outcome != "success" {
+		if fn == "pour" && o.Outcome == "failed" {
+			h.C("C17", "pours_refused")
+		}
 		return
 	}
 	gnPre := h.NodesOfType(o.Pre, "*faucetsc.GlobalNode")
-	gnPost := h.NodesOfType(o.Post, "*faucetsc.GlobalNode")
-	if len(gnPre) != 1 || len(gnPost) != 1 {
+	if len(gnPre) != 1 {
 		return
 	}
 	cfg := gnPre[0].Val
 	periodic, global := U(cfg, "FaucetConfig.PeriodicLimit"), U(cfg, "FaucetConfig.GlobalLimit")
+	iReset, gReset := time.Duration(I(cfg, "FaucetConfig.IndividualReset")), time.Duration(I(cfg, "FaucetConfig.GlobalReset"))
+	pourAmount, maxPour := U(cfg, "FaucetConfig.PourAmount"), U(cfg, "FaucetConfig.MaxPourAmount")
+	m, _ := h.Vars["c17model"].(*fcModel)
+	if m == nil {
+		m = &fcModel{users: map[string]*fcWin{}}
+		h.Vars["c17model"] = m
+	}
+	now := int64(t.CreationDate)
+	// global window: every successful faucet transaction is an occasion to start a new one
+	gRestart := false
+	if !m.g.set || fcElapsed(now, m.g.start) >= gReset {
+		gRestart = m.g.set
+		m.g = fcWin{set: true, start: now}
+		h.C("C17", "global_windows_started")
+	}
+	if fn != "pour" {
+		h.C("C17", "faucet_"+fn+"_observed")
+		return
+	}
 	d := h.deltas(o)
 	poured := -d[faucetsc.ADDRESS]
 	if poured <= 0 {
 		return
 	}
 	h.C("C17", "pours_checked")
-	if r := h.Runs["C17"]; r != nil {
-		r.Eval(1)
+	if run != nil {
+		run.Eval(1)
 	}
 	fpre, _ := h.Bal(o.Pre, faucetsc.ADDRESS)
 	if uint64(poured) > fpre {
 		h.V("C17", "pour-exceeds-faucet-balance", fmt.Sprintf("poured %d with faucet balance %d", poured, fpre), o)
 	}
-	client := o.Txn.ClientID
-	var uStart string
-	for _, n := range h.NodesOfType(o.Post, "*faucetsc.UserNode") {
-		if Str(n.Val, "ID") == client {
-			uStart = F(n.Val, "StartTime").Interface().(time.Time).UTC().String()
+	client := t.ClientID
+	u := m.users[client]
+	if u == nil {
+		u = &fcWin{}
+		m.users[client] = u
+	}
+	uRestart := false
+	if !u.set || fcElapsed(now, u.start) >= iReset || fcElapsed(now, u.start) >= gReset {
+		uRestart = u.set
+		*u = fcWin{set: true, start: now}
+		h.C("C17", "client_windows_started")
+	}
+	u.sum += uint64(poured)
+	m.g.sum += uint64(poured)
+	straddle := u.start < m.g.start // the client's window was opened in an earlier global window and is still running
+	if straddle {
+		h.C("C17", "pours_in_client_window_straddling_global_restart")
+	}
+	class := fcReqClass(uint64(t.Value), pourAmount, maxPour)
+	h.C("C17", "pours_requested_"+class)
+	// how close to the end of the windows did the pour arrive (buckets, for the evidence)
+	edge := func(start int64, reset time.Duration) string {
+		left := reset - fcElapsed(now, start)
+		switch {
+		case fcElapsed(now, start) == 0:
+			return "at-start"
+		case left <= 2*time.Minute:
+			return "last-2m"
+		case fcElapsed(now, start) <= 2*time.Minute:
+			return "first-2m"
+		}
+		return "mid"
+	}
+	if run != nil {
+		run.Distinct(fmt.Sprintf("req=%s|urestart=%v|grestart=%v|straddle=%v|uedge=%s|gedge=%s|ufull=%v|gfull=%v|uover=%v|gover=%v", class, uRestart, gRestart, straddle,
+			edge(u.start, iReset), edge(m.g.start, gReset), u.sum == periodic, m.g.sum == global, u.sum > periodic, m.g.sum > global))
+	}
+	// the signature says which kind of request crossed the limit: the default amount (requested 0 or >= max_pour_amount)
+	// or an amount chosen by the caller
+	kind := "default-amount"
+	if class != "zero" && class != "max" && class != "above-max" {
+		kind = "requested-amount"
+	}
+	if u.sum > periodic {
+		h.V("C17", "periodic-limit-exceeded:"+kind, fmt.Sprintf("client %s received %d within one individual window (opened at %d, now %d, individual_reset %s, global_reset %s), periodic limit %d (this pour: requested %d, got %d, pour_amount %d, max_pour_amount %d)",
+			h.name(client), u.sum, u.start, now, iReset, gReset, periodic, t.Value, poured, pourAmount, maxPour), o)
+	}
+	if m.g.sum > global {
+		h.V("C17", "global-limit-exceeded:"+kind, fmt.Sprintf("faucet poured %d within one global window (opened at %d, now %d, global_reset %s), global limit %d (this pour: requested %d, got %d, pour_amount %d, max_pour_amount %d)",
+			m.g.sum, m.g.start, now, gReset, global, t.Value, poured, pourAmount, maxPour), o)
+	}
+}
+
+// ---- directed scenario -------------------------------------------------------------------------------------------------
+
+func init() {
+	RegisterScenario(Scenario{Prop: "C17", Name: "faucet-windows", Fn: fcScenarioC17})
+}
+
+// fcScenarioC17: the owner sets small limits and short reset lengths; a few clients then pour with requested values of every
+// class (0, below pour_amount, pour_amount, between pour_amount and max_pour_amount, max and above) while the clock is moved
+// to shortly before / at / shortly after the ends of the clients' windows and of the global window, including a client
+// window that is opened late in one global window and is still running when the next global window starts.
+func fcScenarioC17(h *Hist, mons []Monitor) {
+	r := h.R.Fork("c17-windows")
+	T := transaction.TxnTypeSmartContract
+	zcn := func(n int) uint64 { return uint64(n) * 1e10 }
+	pourAmt := 1 + r.Intn(2)
+	maxPour := pourAmt + 3 + r.Intn(4)
+	periodic := maxPour + 2 + r.Intn(6)
+	global := 2*periodic + 3 + r.Intn(12)
+	ir := []time.Duration{time.Hour, 90 * time.Minute, 2 * time.Hour}[r.Intn(3)]
+	gr := ir + time.Duration(r.Intn(4))*20*time.Minute // ir <= gr < 2*ir
+	fields := map[string]string{
+		"pour_amount": fmt.Sprint(pourAmt), "max_pour_amount": fmt.Sprint(maxPour), "periodic_limit": fmt.Sprint(periodic), "global_limit": fmt.Sprint(global),
+		"individual_reset": ir.String(), "global_rest": gr.String(),
+	}
+	settings := func(f map[string]string) *TxnObs {
+		return h.Submit(&Call{Name: "faucet.update-settings", Mut: "scenario", Meta: map[string]interface{}{"gov": "faucet", "settings": f, "all_valid_syntax": true},
+			Spec: world.TxnSpec{From: h.W.Owner, To: faucetsc.ADDRESS, Fee: Coin(r.Intn(500)), Type: T, Func: "update-settings", Input: map[string]interface{}{"fields": f}}}, mons)
+	}
+	if o := settings(fields); o.Outcome != "success" {
+		h.C("C17", "scenario_settings_refused")
+		return
+	}
+	h.C("C17", "scenario_runs")
+	nc := 2 + r.Intn(2)
+	perm := make([]int, len(h.W.Clients))
+	for i := range perm {
+		perm[i] = i
+	}
+	r.Shuffle(len(perm), func(i, j int) { perm[i], perm[j] = perm[j], perm[i] })
+	var clients []*world.Wallet
+	for i := 0; i < nc; i++ {
+		clients = append(clients, h.W.Clients[perm[i]])
+	}
+	// what the scenario believes about the windows (only used to aim the clock; the oracle keeps its own model)
+	g0 := int64(h.W.Now)
+	ustart := map[string]int64{}
+	sec := func(d time.Duration) int64 { return int64(d / time.Second) }
+	value := func() uint64 {
+		switch r.Intn(8) {
+		case 0, 1:
+			return 0
+		case 2:
+			return 1 + r.U64()%zcn(pourAmt) // below pour_amount (down to single units)
+		case 3:
+			return zcn(pourAmt)
+		case 4, 5:
+			return zcn(pourAmt) + 1 + r.U64()%(zcn(maxPour)-zcn(pourAmt)-1) // between pour_amount and max_pour_amount
+		case 6:
+			return zcn(maxPour) - 1
+		}
+		return zcn(maxPour) + uint64(r.Intn(2))*zcn(3)
+	}
+	pour := func(c *world.Wallet, v uint64) *TxnObs {
+		now := int64(h.W.Now)
+		o := h.Submit(&Call{Name: "faucet.pour", Mut: "scenario", Spec: world.TxnSpec{From: c, To: faucetsc.ADDRESS, Value: Coin(v), Fee: Coin(r.Intn(500)), Type: T, Func: "pour", Input: map[string]string{}}}, mons)
+		h.C("C17", "scenario_pours")
+		if o.Outcome == "success" {
+			if now-g0 >= sec(gr) {
+				g0 = now
+			}
+			if s, ok := ustart[c.ID]; !ok || now-s >= sec(ir) {
+				ustart[c.ID] = now
+			}
+		}
+		if h.TxInBlk >= 1+r.Intn(4) {
+			h.EndBlock()
+		}
+		return o
+	}
+	goTo := func(t int64) {
+		if t > int64(h.W.Now) {
+			h.EndBlock()
+			h.W.Advance(time.Duration(t-int64(h.W.Now)) * time.Second)
 		}
 	}
-	gStart := F(gnPost[0].Val, "StartTime").Interface().(time.Time).UTC().String()
-	type win struct{ sum uint64 }
-	wins, _ := h.Vars["c17"].(map[string]*win)
-	if wins == nil {
-		wins = map[string]*win{}
-		h.Vars["c17"] = wins
-	}
-	uk := "u|" + client + "|" + uStart
-	gk := "g|" + gStart
-	for _, k := range []string{uk, gk} {
-		if wins[k] == nil {
-			wins[k] = &win{}
+	// fill a client's window: pour until the contract refuses (or a bound is reached)
+	fill := func(c *world.Wallet) {
+		for i := 0; i < 3*periodic; i++ {
+			if pour(c, value()).Outcome != "success" {
+				return
+			}
+			if r.Chance(0.3) {
+				goTo(int64(h.W.Now) + int64(1+r.Intn(20)))
+			}
 		}
-		wins[k].sum += uint64(poured)
 	}
-	if r := h.Runs["C17"]; r != nil {
-		r.Distinct(fmt.Sprintf("req=%d|got=%d|over=%v", o.Txn.Value, poured, wins[uk].sum > periodic))
+	A, B := clients[0], clients[1]
+	// 1. A pours early in the first global window
+	goTo(int64(h.W.Now) + int64(r.Intn(30)))
+	for i := 0; i < 1+r.Intn(3); i++ {
+		pour(A, value())
 	}
-	if wins[uk].sum > periodic {
-		h.V("C17", "periodic-limit-exceeded", fmt.Sprintf("client %s received %d in one window, periodic limit %d (this pour: requested %d, got %d)", h.name(client), wins[uk].sum, periodic, o.Txn.Value, poured), o)
+	// 2. B opens its window late in the global window, so that it outlives it, and uses up its limit
+	late := 60 + int64(r.Intn(int(sec(ir))/2))
+	goTo(g0 + sec(gr) - late)
+	fill(B)
+	bStart := ustart[B.ID]
+	// 3. the global window ends while B's window is still open; another faucet transaction opens the next global window
+	goTo(g0 + sec(gr) + int64(r.Intn(int(late)/2+1)))
+	touch := func(o *TxnObs) { // a successful refill / update-settings stores the global node as well
+		if o.Outcome == "success" && int64(o.Txn.CreationDate)-g0 >= sec(gr) {
+			g0 = int64(o.Txn.CreationDate)
+		}
 	}
-	if wins[gk].sum > global {
-		h.V("C17", "global-limit-exceeded", fmt.Sprintf("faucet poured %d in one global window, limit %d", wins[gk].sum, global), o)
+	switch r.Intn(3) {
+	case 0:
+		pour(clients[nc-1], value())
+	case 1:
+		touch(h.Submit(&Call{Name: "faucet.refill", Mut: "scenario", Spec: world.TxnSpec{From: A, To: faucetsc.ADDRESS, Value: Coin(1 + r.Intn(1000)), Fee: Coin(r.Intn(500)), Type: T, Func: "refill", Input: map[string]string{}}}, mons))
+	case 2:
+		touch(settings(map[string]string{"global_limit": fmt.Sprint(global)}))
 	}
+	// 4. B asks again inside its old window, right before its end, and at / after its end
+	for i := 0; i < 2+r.Intn(2); i++ {
+		pour(B, value())
+	}
+	if bStart != 0 {
+		goTo(bStart + sec(ir) - int64(1+r.Intn(90)))
+		pour(B, value())
+		pour(B, 0)
+		goTo(bStart + sec(ir) + int64(r.Intn(2)))
+		fill(B)
+	}
+	// 5. random walk over the boundaries: every step aims the clock at the neighbourhood of the end of some window
+	steps := 18 + r.Intn(10)
+	for i := 0; i < steps; i++ {
+		c := clients[r.Intn(nc)]
+		now := int64(h.W.Now)
+		var targets []int64
+		for _, q := range clients {
+			if s, ok := ustart[q.ID]; ok && s+sec(ir) > now {
+				targets = append(targets, s+sec(ir))
+			}
+		}
+		if g0+sec(gr) > now {
+			targets = append(targets, g0+sec(gr))
+		}
+		switch k := r.Intn(10); {
+		case k < 5 && len(targets) > 0:
+			b := targets[r.Intn(len(targets))]
+			off := []int64{-61, -2, -1, 0, 0, 1, 2, 45}[r.Intn(8)]
+			goTo(b + off)
+		case k < 8:
+			goTo(now + int64(1+r.Intn(30)))
+		default:
+			goTo(now + int64(r.Intn(int(sec(ir)))))
+		}
+		if r.Chance(0.35) {
+			fill(c)
+		} else {
+			pour(c, value())
+		}
+	}
+	h.EndBlock()
 }
